@@ -682,6 +682,11 @@ def run(tier):
     chk.adopt('C02.R11', 'inputs cross the process boundary intact (tags, '
               'leaf records, cursor of the pickle format; shared with '
               'C12.R1)', sub12b)
+    from .. import depthrec
+    chk.guard(depthrec.report, chk, prog, 'C02.R13',
+              'no function of the tree core that enumerates or applies candidates recurses over the nesting depth (directly, through helpers, generators, tuple comparison, deepcopy or the generic pickler)',
+              [('nodes', 'substitute'), ('nodes', 'dfs'), ('nodes', 'bfs'), ('nodes', 'reduplicate'), ('nodes', 'count_nodes'), ('nodes', 'Node.__eq__'), ('nodes', 'Node.__getstate__'), ('nodes', 'Node.__setstate__')],
+              'a check that raises in the worker is reported as "rejected": candidates in deep terms are never really tested, and the sweep that ends the pass declares a fixed point')
     extra = None
     if tier == 'thorough':
         from .. import selftest
